@@ -65,7 +65,7 @@ pub trait Tab: Sized + Clone + Eq + Ord + Hash + 'static {
     fn t_swap(&mut self, i: usize, j: usize, form: &str) -> Option<Self>;
     fn t_swapadj(&mut self, i: usize, form: &str) -> Option<Self>;
     fn t_cofactors(&self, i: usize) -> (Self, Self);
-    fn decomp(&self, i: usize) -> &'static str;
+    fn decomp(&self, i: usize) -> (&'static str, [bool; 4]);
     fn unate(&self, i: usize, pos: bool) -> bool;
     fn text(&self, form: &str) -> String;
     fn canon(&self, kind: &str) -> (Self, Vec<u8>, u32);
@@ -211,8 +211,11 @@ macro_rules! shared_methods {
         fn t_cofactors(&self, i: usize) -> (Self, Self) {
             self.cofactors(i)
         }
-        fn decomp(&self, i: usize) -> &'static str {
-            decomp_name(self.top_decomposition(i))
+        fn decomp(&self, i: usize) -> (&'static str, [bool; 4]) {
+            let d = self.top_decomposition(i);
+            // the family predicates of DecompositionType, read before the class is named
+            let cls = [d.is_trivial(), d.is_and_type(), d.is_xor_type(), d.is_simple_gate()];
+            (decomp_name(d), cls)
         }
         fn unate(&self, i: usize, pos: bool) -> bool {
             if pos {
